@@ -1055,7 +1055,7 @@ INHERITED = [
 class Load(C.Stream):
     name = "C13.load"
     malformed = False
-    quick_cases = 2200
+    quick_cases = 2000
     thorough_cases = 30000
     quick_seconds = 38
     thorough_seconds = 420
@@ -1291,7 +1291,7 @@ class Load(C.Stream):
 class Malformed(Load):
     name = "C13.malformed"
     malformed = True
-    quick_cases = 1300
+    quick_cases = 1150
     thorough_cases = 18000
     quick_seconds = 24
     thorough_seconds = 260
